@@ -80,10 +80,10 @@ fn c17_salting() -> R {
         }
         2 => {
             op("add_salt_in_range_using");
-            let (lo, hi) = [(0usize, 20usize), (7, 8), (8, 8), (8, 9), (10, 40), (16, 16)][choice(6)];
+            let (lo, hi) = [(0usize, 20usize), (7, 8), (8, 8), (8, 9), (10, 40), (16, 16), (9, 8), (20, 10), (usize::MAX, 8)][choice(9)];
             match e.add_salt_in_range_using(&(lo..=hi), &mut rng) {
-                Ok(r) => { ensure!(lo >= 8, "a salt range starting below 8 bytes was accepted", "{}..={}", lo, hi); (r, Some((lo, hi))) }
-                Err(_) => { ensure!(lo < 8, "a valid salt range was refused", "{}..={}", lo, hi); return Ok(()); }
+                Ok(r) => { ensure!(lo >= 8, "a salt range starting below 8 bytes was accepted", "{}..={}", lo, hi); ensure!(lo <= hi, "an empty salt range was accepted", "{}..={}", lo, hi); (r, Some((lo, hi))) }
+                Err(_) => { ensure!(lo < 8 || lo > hi, "a valid salt range was refused", "{}..={}", lo, hi); return Ok(()); }
             }
         }
         3 => { op("add_salt_instance"); (e.add_salt_instance(Salt::from_data(vec![7u8; 12])), Some((12, 12))) }
@@ -142,6 +142,15 @@ fn c17_salted_assertions() -> R {
     ensure!(bytes(&r.subject()) == bytes(&e.subject()), "salted add changed the subject", "");
     for b in &had { ensure!(r.assertions().iter().any(|x| &bytes(x) == b), "salted add changed or dropped an existing assertion", ""); }
     let found = r.assertions_with_predicate(p.clone());
+    {
+        // found by its predicate whatever the obscuration state of the query or of the stored predicate (matching is by digest)
+        let pe = Envelope::new(p.clone());
+        ensure!(r.assertions_with_predicate(pe.elide()).len() == found.len(), "lookup by the elided form of the predicate finds another number of assertions", "{}", found.len());
+        let hidden = r.elide_removing_target(&pe);
+        ensure!(hidden.assertions_with_predicate(p.clone()).len() == found.len(), "assertion no longer found by its predicate after the predicate was elided in place", "{}", found.len());
+        let packed = r.elide_removing_target_with_action(&pe, &ObscureAction::Compress);
+        ensure!(packed.assertions_with_predicate(p.clone()).len() == found.len(), "assertion no longer found by its predicate after the predicate was compressed in place", "{}", found.len());
+    }
     if salted {
         ensure!(r.assertions().len() == had.len() + 1, "a salted add must add the assertion", "{} -> {} (the same fact was already present {} times)", had.len(), r.assertions().len(), had_matches);
         ensure!(found.len() == had_matches + 1, "the salted assertion is not found by its predicate", "{} -> {}", had_matches, found.len());
@@ -390,6 +399,20 @@ fn c18_response() -> R {
         let pe: Envelope = Response::new_failure(arid(2)).into();
         ensure!(bytes(&oe) == bytes(&pe), "with_optional_error(None) changed the response", "");
     }
+    // a response that carries one further, unrelated assertion (wherever the hash sorts it): if it parses at all,
+    // it parses to the same identifier and payload, never to the other assertion's object
+    op("Response::try_from (with an unrelated assertion)");
+    {
+        let noted = env.add_assertion(leaf_text(940), leaf_text(941));
+        for route in 0..2 {
+            let src = if route == 0 { noted.clone() } else { must!(Envelope::try_from_cbor_data(bytes(&noted)), "decode failed") };
+            if let Ok(back) = Response::try_from(src) {
+                ensure!(back.is_ok() == rs.is_ok() && back.id() == rs.id(), "response with an unrelated assertion parses to another variant / identifier", "{}", label);
+                if rs.is_ok() { ensure!(dg(must!(back.result(), "no result")) == dg(must!(rs.result(), "no result")), "response with an unrelated assertion parses to another result", "{} route {}", label, route); }
+                else { ensure!(dg(must!(back.error(), "no error")) == dg(must!(rs.error(), "no error")), "response with an unrelated assertion parses to another error", "{} route {}", label, route); }
+            }
+        }
+    }
     op("Response::try_from (malformed)");
     let the = env.assertions()[0].clone();
     let bads = vec![
@@ -515,6 +538,54 @@ fn c19_attachments() -> R {
     Ok(())
 }
 
+/// the Attachments container as another route to the same envelope: every list of 1..3 attachments that may share the
+/// payload and differ only in vendor / conformsTo (or be exact repeats), collected in any order
+pub fn c19_container() -> R {
+    let vendors = ["com.example", "org.other"];
+    let confs: [Option<&str>; 3] = [None, Some("https://example.com/v1"), Some("")];
+    let payloads = |i: usize| -> Envelope { match i { 0 => Envelope::new(leaf_text(88)), _ => build(&n(l(1), vec![a(l(2), l(3))])) } };
+    let natt = 1 + choice(3);
+    let mut atts: Vec<(usize, usize, usize)> = vec![];
+    // (bounded: with three attachments the later ones vary less)
+    for i in 0..natt {
+        let full = i == 0 || (i == 1 && natt == 2);
+        atts.push((if i < 2 { choice(2) } else { 0 }, if full { choice(2) } else { 0 }, if full { choice(3) } else { [0usize, 2][choice(2)] }));
+    }
+    let base = match choice(2) { 0 => build(&l(10)), _ => build(&n(l(10), vec![a(l(11), l(12))])) };
+    let mut direct = base.clone();
+    op("add_attachment");
+    for (p, v, c) in &atts { direct = direct.add_attachment(payloads(*p), vendors[*v], confs[*c]); }
+    let mut distinct = atts.clone(); distinct.sort(); distinct.dedup();
+    rt::note(format!("container {:?}", atts));
+    op("Attachments::add / add_to_envelope");
+    let mut cont = Attachments::new();
+    let order = rt::perm(atts.len());
+    for &i in &order { let (p, v, c) = atts[i]; cont.add(payloads(p), vendors[v], confs[c]); }
+    for (p, v, c) in &distinct {
+        let w = Envelope::new_attachment(payloads(*p), vendors[*v], confs[*c]);
+        let g = crate::must_some!(cont.get(&w.digest()), "container lacks an attachment that was added to it");
+        ensure!(bytes(g) == bytes(&w), "container returns another attachment than the one added", "");
+        ensure!(must!(g.attachment_conforms_to(), "conformsTo").as_deref() == confs[*c] && must!(g.attachment_vendor(), "vendor") == vendors[*v], "attachment held by the container has another vendor / conformsTo than given", "{:?} {:?}", vendors[*v], confs[*c]);
+    }
+    let via = cont.add_to_envelope(base.clone());
+    ensure!(bytes(&via) == bytes(&direct), "envelope built through the Attachments container differs from add_attachment one by one", "{:?} collected in order {:?}", atts, order);
+    let got = must!(via.attachments(), "attachments() failed");
+    ensure!(got.len() == distinct.len(), "attachments() does not return exactly the attachments the container held", "{} vs {}", got.len(), distinct.len());
+    op("Attachments::try_from_envelope");
+    let back = must!(Attachments::try_from_envelope(&direct), "Attachments::try_from_envelope failed");
+    let again = back.add_to_envelope(base.clone());
+    ensure!(bytes(&again) == bytes(&direct), "container read from an envelope does not rebuild it", "");
+    op("Attachments::remove");
+    let (p0, v0, c0) = distinct[0];
+    let w0 = Envelope::new_attachment(payloads(p0), vendors[v0], confs[c0]);
+    let removed = crate::must_some!(cont.remove(&w0.digest()), "remove of a held attachment returned nothing");
+    ensure!(bytes(&removed) == bytes(&w0), "remove returned another attachment", "");
+    let rest = cont.add_to_envelope(base.clone());
+    ensure!(must!(rest.attachments(), "attachments() failed").len() == distinct.len() - 1, "remove took out more or less than one attachment", "");
+    ensure!(cont.is_empty() == (distinct.len() == 1), "is_empty wrong", "");
+    Ok(())
+}
+
 fn c19_malformed() -> R {
     let good = Envelope::new_attachment("payload", "com.example", Some("https://example.com/v1"));
     let obj = good.as_object().unwrap();
@@ -591,7 +662,7 @@ pub fn prop_c17() -> Prop {
         id: "C17",
         scenarios: vec![
             Scenario { name: "salting", f: c17_salting, thorough_only: false,
-                bounds: "every shape of <=5 (quick) / <=7 (thorough) elements + 21 larger shapes + 5 envelopes of 100..5000 bytes whose size sits in the assertions x {add_salt_using, add_salt_with_len_using(0,1,7,8,9,64), add_salt_in_range_using(6 ranges), add_salt_instance, add_salt, add_salt_with_len} x RNG whose range draws are pinned to 0 / u64::MAX / seeded x every digest order; length checked against the documented range computed from the real serialized size",
+                bounds: "every shape of <=5 (quick) / <=7 (thorough) elements + 21 larger shapes + 5 envelopes of 100..5000 bytes whose size sits in the assertions x {add_salt_using, add_salt_with_len_using(0,1,7,8,9,64), add_salt_in_range_using(9 ranges, 3 of them empty (start > end)), add_salt_instance, add_salt, add_salt_with_len} x RNG whose range draws are pinned to 0 / u64::MAX / seeded x every digest order; length checked against the documented range computed from the real serialized size",
                 api: &["add_salt", "add_salt_using", "add_salt_with_len", "add_salt_with_len_using", "add_salt_in_range_using", "add_salt_instance"] },
             Scenario { name: "salted_assertions", f: c17_salted_assertions, thorough_only: false,
                 bounds: "7 starting envelopes (bare, with other assertions, already holding the same fact plainly or decorated) x salted / unsalted x {add_assertion_salted, add_assertion_envelope_salted, add_assertions_salted} x every digest order",
@@ -629,6 +700,9 @@ pub fn prop_c19() -> Prop {
             Scenario { name: "attachments", f: c19_attachments, thorough_only: false,
                 bounds: "2 host envelopes x every list of 1..3 attachments (a single one over 4 payloads, several over 3 fixed payloads (text, node, wrapped, known value) x 2 vendors x conformsTo {none, 2 values} x every filter (vendor none / 2 values) x (conformsTo none / 2 values / unknown) x every digest order",
                 api: &["add_attachment", "new_attachment", "attachments", "attachments_with_vendor_and_conforms_to", "attachment_with_vendor_and_conforms_to", "attachment_payload", "attachment_vendor", "attachment_conforms_to", "validate_attachment", "Attachments::try_from_envelope"] },
+            Scenario { name: "container", f: c19_container, thorough_only: false,
+                bounds: "2 host envelopes x every list of 1..3 attachments over 2 payloads x 2 vendors x conformsTo {none, 1 value, the empty string} (in lists of three the second and third over 1 vendor and {none, empty}, the third over 1 payload; shared payloads and exact repeats included) x every collection order into the Attachments container x every digest order",
+                api: &["Attachments::new", "Attachments::add", "Attachments::get", "Attachments::remove", "Attachments::is_empty", "Attachments::add_to_envelope", "Attachments::try_from_envelope", "add_attachment", "attachments"] },
             Scenario { name: "malformed", f: c19_malformed, thorough_only: false,
                 bounds: "10 malformed attachment assertions (vendor / conformsTo value carrying an assertion, vendor removed / duplicated / not text, conformsTo duplicated / not text, payload not wrapped, extra assertion, bare leaf object), alone or next to a well-formed one x every digest order",
                 api: &["validate_attachment", "attachments"] },
